@@ -55,7 +55,7 @@ def gen_chain(rng, quick, idx):
                    dict(cls='fermion', cons='parity', filling=fil)]
     pool = pool_none if kind == 'mixed-none' else pool_common
     dims = {'fermion': 2, 'shFermion': 4, 'shHole': 3, 'spinHalf': 2, 'boson': 3, 'spin': 3}
-    cap = 200 if quick else 1100
+    cap = 200 if quick else 520
     while True:
         L = rng.randint(2, 6)
         specs = [dict(rng.choice(pool)) for _ in range(L)]
@@ -229,7 +229,7 @@ def gen_terms(rng, sites, quick):
             for a in atomic_odd[i]:
                 for b in atomic_odd[j]:
                     pairs.append([[a, i], [b, j]])
-    cap = 150 if quick else 2000
+    cap = 150 if quick else 600
     if len(pairs) > cap:
         # keep every site pair, sample the operator choices
         keep = {}
@@ -260,7 +260,7 @@ def gen_terms(rng, sites, quick):
         return [w, i]
 
     multi = []
-    nq = 60 if quick else 1500
+    nq = 60 if quick else 300
     for _ in range(nq):
         n = rng.choice([4, 4, 4, 3, 5, 6, 2])
         multi.append([rand_entry() for _ in range(n)])
@@ -295,6 +295,55 @@ def canonical_anticommutator(sites, a, i, b, j, D):
     return np.zeros((D, D))
 
 
+def term_verdict(sites, orc, term):
+    """None if the dense MPO of `term` is the ordered product of the JW images (or the term is correctly
+    rejected), otherwise (signature suffix, detail)."""
+    ref, parity = orc.term(term)
+    try:
+        H = cc.dense_from_termlist(sites, [[(w, i) for w, i in term]], [1.0])
+        err = None
+    except ValueError as e:
+        H, err = None, str(e)
+    if parity:
+        if H is not None and len({i for _, i in term}) >= 2:
+            return 'odd-term-accepted', f'term {term} has odd fermion parity but was turned into an MPO'
+        return None
+    if H is None:
+        return 'even-term-rejected', f'term {term}: {err}'
+    if not np.all(np.abs(H - ref) <= TOL):
+        sign_only = np.all(np.abs(H + ref) <= TOL)
+        return ('dense-vs-JW.' + ('sign' if sign_only else 'operator'),
+                f'term {term}: dense MPO differs from the ordered product of Jordan-Wigner images '
+                f'(max diff {np.abs(H - ref).max():.3g})')
+    return None
+
+
+def shrink_term(sites, orc, term):
+    """greedy removal of operators (and splitting of compound names) while the term still fails"""
+    cur = [list(t) for t in term]
+    changed = True
+    while changed:
+        changed = False
+        for k in range(len(cur)):
+            cand = cur[:k] + cur[k + 1:]
+            if cand and term_verdict(sites, orc, cand) is not None:
+                cur, changed = cand, True
+                break
+        if changed:
+            continue
+        for k, (w, i) in enumerate(cur):
+            parts = w.split()
+            if len(parts) > 1:
+                for drop in range(len(parts)):
+                    cand = cur[:k] + [[' '.join(parts[:drop] + parts[drop + 1:]), i]] + cur[k + 1:]
+                    if term_verdict(sites, orc, cand) is not None:
+                        cur, changed = cand, True
+                        break
+            if changed:
+                break
+    return cur
+
+
 # ------------------------------------------------------------------------------------------------
 def check_chain(ctx, res, chain, rng, nprng, use_model=True, first_terms=()):
     quick = ctx.quick
@@ -325,6 +374,7 @@ def check_chain(ctx, res, chain, rng, nprng, use_model=True, first_terms=()):
 
     records = []
     dense_pairs = {}
+    n_shrunk = [0]
     for tnum, term in enumerate(pairs + multi):
         case = {'part': 'chain', 'chain': chain, 'term': term}
         rec = dict(case=case, term=term)
@@ -349,19 +399,23 @@ def check_chain(ctx, res, chain, rng, nprng, use_model=True, first_terms=()):
             H, rec['dense_err'] = None, str(e)
         nontrivial = len({i for _, i in term}) >= 2 and any(word_is_odd(w) for w, _ in term)
         res.note_case(case, nontrivial)
+        bad = None
         if parity:
             # a fermion-odd product has an open string: terms spanning several sites must be rejected
             # (an odd product on a single site goes through OnsiteTerms, which carry no parity information)
             if H is not None and len({i for _, i in term}) >= 2:
-                res.fail('property', 'chain.mpo.odd-term-accepted',
-                         f'term {term} has odd fermion parity but was turned into an MPO', case)
+                bad = 'odd-term-accepted'
         elif H is None:
-            res.fail('property', 'chain.mpo.even-term-rejected', f'term {term}: {rec["dense_err"]}', case)
+            bad = 'even-term-rejected'
         elif not np.all(np.abs(H - ref) <= TOL):
-            sign_only = np.all(np.abs(H + ref) <= TOL)
-            res.fail('property', 'chain.mpo.dense-vs-JW.' + ('sign' if sign_only else 'operator'),
-                     f'term {term}: dense MPO differs from the ordered product of Jordan-Wigner images '
-                     f'(max diff {np.abs(H - ref).max():.3g}; combined {rec["oc"]}, handled {rec.get("mjw")})', case)
+            bad = 'dense'
+        if bad:
+            n_shrunk[0] += 1
+            small = shrink_term(sites, orc, term) if n_shrunk[0] <= 3 else term
+            sig, detail = term_verdict(sites, orc, small) or (bad, f'term {term}')
+            res.fail('property', 'chain.mpo.' + sig,
+                     detail + f' (order_combine_term -> {impl_oc(small, sites)}; original term {term})',
+                     {'part': 'chain', 'chain': chain, 'term': small})
         if tnum < len(pairs) and H is not None:
             dense_pairs[(term[0][0], term[0][1], term[1][0], term[1][1])] = H
 
@@ -600,15 +654,31 @@ def run_needjw(ctx, res, use_model=True):
                 res.fail('correspondence', 'site.op_needs_JW.model-vs-impl', f'{case}: impl {got} model {ans}', case)
 
 
+def _one_chain(args):
+    """worker: one chain, its own PRNG derived from (seed, index) so that it replays in any process"""
+    prop, tier, seed, budget, idx, use_model = args
+    ctx = core.Ctx(prop, tier, seed, budget)
+    res = core.Result()
+    rng = ctx.sub_rng(f'chain:{idx}')
+    nprng = np.random.default_rng(rng.getrandbits(32))
+    chain = gen_chain(rng, ctx.quick, idx)
+    check_chain(ctx, res, chain, rng, nprng, use_model)
+    return res
+
+
 def run(ctx, use_model=True, n_chains=None):
     res = core.Result()
-    rng = ctx.sub_rng('chains')
-    nprng = np.random.default_rng(rng.getrandbits(32))
     run_needjw(ctx, res, use_model)
-    n = n_chains or (9 if ctx.quick else 60)
-    for idx in range(n):
-        chain = gen_chain(rng, ctx.quick, idx)
-        check_chain(ctx, res, chain, rng, nprng, use_model)
+    n = n_chains or (9 if ctx.quick else 48)
+    jobs = [(ctx.prop, ctx.tier, ctx.seed, ctx.budget_s, idx, use_model) for idx in range(n)]
+    if ctx.quick:
+        for j in jobs:
+            res.merge(_one_chain(j))
+    else:
+        import multiprocessing as mp
+        with mp.get_context('fork').Pool(min(16, mp.cpu_count())) as pool:
+            for r in pool.imap_unordered(_one_chain, jobs):
+                res.merge(r)
     return res
 
 
@@ -643,4 +713,4 @@ def run_case(ctx, case):
 
 
 def search(ctx):
-    return run(ctx, use_model=False, n_chains=(14 if ctx.quick else 80))
+    return run(ctx, use_model=False, n_chains=(14 if ctx.quick else 64))
